@@ -16,6 +16,6 @@ Emit == done => PrintT(ToJson(Shape))
 VerdictAll == \A o \in {x \in Ops(nodes) : OpOK(nodes, x)} :
                 LET v == Expect(nodes, o) IN
                   /\ v \in {"accept", "reject", "any"}
-                  /\ (o.k = "rt" <=> v = "accept")
+                  /\ (o.k \in {"rt", "size"} <=> v = "accept")
                   /\ (o.k = "cut" /\ ~o.framed => v = "any")
 =====================================================================
